@@ -148,6 +148,25 @@ class MergerConfig:
             return AoHMergeOpts.from_str(self.config["defaults"]["aoh"])
         return AoHMergeOpts.ALL
 
+    def scalar_merge_mode(
+        self, node_coord: NodeCoords
+    ) -> Optional[ArrayMergeOpts]:
+        """
+        Get the merge mode applicable to a Scalar at the indicated path.
+
+        Scalars have no default policy -- the RHS value overrides -- but a
+        user-defined rule for the exact node can force LEFT or RIGHT.
+
+        Parameters:
+        1. node_coord (NodeCoords) The node for which to query.
+
+        Returns:  (Optional[ArrayMergeOpts]) Applicable rule, if any.
+        """
+        merge_rule = self._get_rule_for(node_coord)
+        if merge_rule:
+            return ArrayMergeOpts.from_str(merge_rule)
+        return None
+
     def set_merge_mode(self, node_coord: NodeCoords) -> SetMergeOpts:
         """
         Get Set merge mode applicable to the indicated path.
